@@ -5,6 +5,7 @@ import (
 	"fmt"
 	"go/ast"
 	"go/parser"
+	"go/printer"
 	"go/token"
 	"os"
 	"path/filepath"
@@ -400,6 +401,253 @@ func factsMain(args []string) error {
 	})
 	fmt.Fprintf(&sb, "\n/-- render.go uses a sync/atomic primitive (the manager field is shared between Reload and requests) -/\ndef renderUsesSync : Bool := %v\n", renderSync)
 	fmt.Fprintf(&sb, "/-- number of Close() calls in html/manager.go (files opened by Parse must be closed) -/\ndef managerCloseCalls : Nat := %d\n", closeCalls)
+	// ---- html/scan_base.go: how many columns a tab advances (NextRune) and gives back (UnRead)
+	bf, err := parse("html/scan_base.go")
+	if err != nil {
+		return err
+	}
+	tabDelta := func(fn string) (int, bool) {
+		found, val := false, 0
+		for _, d := range bf.Decls {
+			fd, ok := d.(*ast.FuncDecl)
+			if !ok || fd.Name.Name != fn {
+				continue
+			}
+			ast.Inspect(fd, func(n ast.Node) bool {
+				is, ok := n.(*ast.IfStmt)
+				if !ok {
+					return true
+				}
+				be, ok := is.Cond.(*ast.BinaryExpr)
+				if !ok || be.Op != token.EQL {
+					return true
+				}
+				if bl, ok := be.Y.(*ast.BasicLit); !ok || bl.Value != `'\t'` {
+					return true
+				}
+				for _, st := range is.Body.List {
+					if as, ok := st.(*ast.AssignStmt); ok && len(as.Rhs) == 1 && (as.Tok == token.ADD_ASSIGN || as.Tok == token.SUB_ASSIGN) {
+						if bl, ok := as.Rhs[0].(*ast.BasicLit); ok {
+							v, _ := strconv.Atoi(bl.Value)
+							if as.Tok == token.SUB_ASSIGN {
+								v = -v
+							}
+							found, val = true, v
+						}
+					}
+				}
+				return true
+			})
+		}
+		return val, found
+	}
+	adv, ok1 := tabDelta("NextRune")
+	unr, ok2 := tabDelta("UnRead")
+	fmt.Fprintf(&sb, "\n/-- html/scan_base.go: column delta of a tab in NextRune and in UnRead (0 = the tab case was not found) -/\ndef tabAdvance : Int := %d\ndef tabUnread : Int := %d\n", map[bool]int{true: adv}[ok1], map[bool]int{true: unr}[ok2])
+
+	// ---- html/template.go: the bound on fragment nesting
+	tpf, err := parse("html/template.go")
+	if err != nil {
+		return err
+	}
+	maxDepth := 0
+	ast.Inspect(tpf, func(n ast.Node) bool {
+		if vs, ok := n.(*ast.ValueSpec); ok && len(vs.Names) == 1 && vs.Names[0].Name == "maxFragmentDepth" && len(vs.Values) == 1 {
+			if bl, ok := vs.Values[0].(*ast.BasicLit); ok {
+				maxDepth, _ = strconv.Atoi(bl.Value)
+			}
+		}
+		return true
+	})
+	fmt.Fprintf(&sb, "/-- html/template.go: const maxFragmentDepth (0 = not found) -/\ndef maxFragmentDepth : Nat := %d\n", maxDepth)
+
+	// ---- exp/visitor.go: the type switches of IsInt / IsFloat: (Go type, what is returned for it)
+	vf, err := parse("exp/visitor.go")
+	if err != nil {
+		return err
+	}
+	kindCases := func(fn string) string {
+		var items []string
+		for _, d := range vf.Decls {
+			fd, ok := d.(*ast.FuncDecl)
+			if !ok || fd.Name.Name != fn || fd.Recv != nil {
+				continue
+			}
+			ast.Inspect(fd, func(n ast.Node) bool {
+				cc, ok := n.(*ast.CaseClause)
+				if !ok {
+					return true
+				}
+				ret := "?"
+				for _, st := range cc.Body {
+					if rs, ok := st.(*ast.ReturnStmt); ok {
+						var parts []string
+						for _, r := range rs.Results {
+							var b strings.Builder
+							printer.Fprint(&b, fset, r)
+							parts = append(parts, b.String())
+						}
+						ret = strings.Join(parts, ", ")
+					}
+				}
+				if len(cc.Body) != 1 {
+					ret = fmt.Sprintf("(%d statements) ", len(cc.Body)) + ret
+				}
+				for _, e := range cc.List {
+					var b strings.Builder
+					printer.Fprint(&b, fset, e)
+					items = append(items, fmt.Sprintf("(%s, %s)", leanStr(b.String()), leanStr(ret)))
+				}
+				return true
+			})
+		}
+		return "[" + strings.Join(items, ", ") + "]"
+	}
+	fmt.Fprintf(&sb, "/-- exp/visitor.go IsInt: every case of the type switch with the expression it returns -/\ndef isIntCases : List (String × String) := %s\n", kindCases("IsInt"))
+	fmt.Fprintf(&sb, "/-- exp/visitor.go IsFloat: every case of the type switch with the expression it returns -/\ndef isFloatCases : List (String × String) := %s\n", kindCases("IsFloat"))
+
+	// ---- html/scan_code.go: the characters that open a string literal inside a ${} block (the case that calls scanString)
+	cf2, err := parse("html/scan_code.go")
+	if err != nil {
+		return err
+	}
+	var strOpeners []string
+	ast.Inspect(cf2, func(n ast.Node) bool {
+		cc, ok := n.(*ast.CaseClause)
+		if !ok {
+			return true
+		}
+		calls := false
+		for _, st := range cc.Body {
+			ast.Inspect(st, func(m ast.Node) bool {
+				if ce, ok := m.(*ast.CallExpr); ok {
+					if se, ok := ce.Fun.(*ast.SelectorExpr); ok && se.Sel.Name == "scanString" {
+						calls = true
+					}
+				}
+				return true
+			})
+		}
+		if calls {
+			for _, e := range cc.List {
+				if bl, ok := e.(*ast.BasicLit); ok && bl.Kind == token.CHAR {
+					if r, _, _, err := strconv.UnquoteChar(bl.Value[1:len(bl.Value)-1], '\''); err == nil {
+						strOpeners = append(strOpeners, string(r))
+					}
+				}
+			}
+		}
+		return true
+	})
+	fmt.Fprintf(&sb, "/-- html/scan_code.go: characters that open a string literal inside a block -/\ndef blockStringOpeners : List String := %s\n", leanList(strOpeners))
+
+	// ---- html/manager.go: the registry GetTemplate looks a name up in
+	mf2, err := parse("html/manager.go")
+	if err != nil {
+		return err
+	}
+	lookupIn := "?"
+	for _, d := range mf2.Decls {
+		if fd, ok := d.(*ast.FuncDecl); ok && fd.Name.Name == "GetTemplate" && fd.Recv != nil {
+			ast.Inspect(fd, func(n ast.Node) bool {
+				if ie, ok := n.(*ast.IndexExpr); ok && lookupIn == "?" {
+					if se, ok := ie.X.(*ast.SelectorExpr); ok {
+						lookupIn = se.Sel.Name
+					}
+				}
+				return true
+			})
+		}
+	}
+	fmt.Fprintf(&sb, "/-- html/manager.go: the field (*tplManager).GetTemplate indexes by name -/\ndef getTemplateLooksIn : String := %s\n", leanStr(lookupIn))
+
+	// ---- process-wide mutable state: package-level variables and struct fields of type sync.Pool / sync.Map, and
+	// package-level map variables other than the built-in scope, in the root package, html/ and exp/ (no test files)
+	var shared []string
+	for _, dir := range []string{".", "html", "exp"} {
+		ents, _ := os.ReadDir(filepath.Join(*repo, dir))
+		for _, e := range ents {
+			if e.IsDir() || !strings.HasSuffix(e.Name(), ".go") || strings.HasSuffix(e.Name(), "_test.go") {
+				continue
+			}
+			rel := filepath.Join(dir, e.Name())
+			f, err := parse(rel)
+			if err != nil {
+				continue
+			}
+			isShared := func(t ast.Expr) string {
+				if se, ok := t.(*ast.SelectorExpr); ok {
+					if id, ok := se.X.(*ast.Ident); ok && id.Name == "sync" && (se.Sel.Name == "Pool" || se.Sel.Name == "Map") {
+						return "sync." + se.Sel.Name
+					}
+				}
+				return ""
+			}
+			for _, d := range f.Decls {
+				gd, ok := d.(*ast.GenDecl)
+				if !ok {
+					continue
+				}
+				for _, sp := range gd.Specs {
+					switch x := sp.(type) {
+					case *ast.ValueSpec:
+						if gd.Tok != token.VAR {
+							continue
+						}
+						kind := ""
+						if x.Type != nil {
+							kind = isShared(x.Type)
+							if _, ok := x.Type.(*ast.MapType); ok {
+								kind = "map"
+							}
+						}
+						for _, v := range x.Values {
+							if cl, ok := v.(*ast.CompositeLit); ok {
+								if k := isShared(cl.Type); k != "" {
+									kind = k
+								}
+								if _, ok := cl.Type.(*ast.MapType); ok {
+									kind = "map"
+								}
+							}
+							if ue, ok := v.(*ast.UnaryExpr); ok {
+								if cl, ok := ue.X.(*ast.CompositeLit); ok {
+									if k := isShared(cl.Type); k != "" {
+										kind = k
+									}
+								}
+							}
+							if ce, ok := v.(*ast.CallExpr); ok {
+								if id, ok := ce.Fun.(*ast.Ident); ok && id.Name == "make" && len(ce.Args) > 0 {
+									if _, ok := ce.Args[0].(*ast.MapType); ok {
+										kind = "map"
+									}
+								}
+							}
+						}
+						if kind != "" {
+							for _, n := range x.Names {
+								shared = append(shared, filepath.ToSlash(rel)+": var "+n.Name+" "+kind)
+							}
+						}
+					case *ast.TypeSpec:
+						if st, ok := x.Type.(*ast.StructType); ok {
+							for _, fl := range st.Fields.List {
+								if k := isShared(fl.Type); k != "" {
+									for _, n := range fl.Names {
+										shared = append(shared, filepath.ToSlash(rel)+": field "+x.Name.Name+"."+n.Name+" "+k)
+									}
+								}
+							}
+						}
+					}
+				}
+			}
+		}
+	}
+	sort.Strings(shared)
+	fmt.Fprintf(&sb, "/-- process-wide or manager-wide shared containers (sync.Pool / sync.Map variables and fields, package-level maps) -/\ndef sharedContainers : List String := %s\n", leanList(shared))
+
 	sb.WriteString("\nend Facts\n")
 	return os.WriteFile(*out, []byte(sb.String()), 0o644)
 }
